@@ -312,12 +312,23 @@ class SimpleJSONRPCDispatcher(SimpleXMLRPCDispatcher, object):
         except Exception as ex:
             # The response can't be converted to JSON (e.g. the request ID
             # was a bean, translated by jsonclass)
+            config = self.json_config
+            if (
+                isinstance(request, dict)
+                and "jsonrpc" not in request
+                and config.version >= 2
+            ):
+                # JSON-RPC 1.0 request on a JSON-RPC 2.0 server: this error
+                # is answered in the form of the request, like any other
+                config = config.copy()
+                config.version = 1.0
+
             fault = Fault(
                 -32603,
                 "Error converting the response: {0}:{1}".format(
                     type(ex).__name__, ex
                 ),
-                config=self.json_config,
+                config=config,
             )
             _logger.error("Error preparing JSON-RPC response: %s", fault)
             return fault.response()
